@@ -35,6 +35,11 @@ func signalScenarios() []binScenario {
 			SQL: "UPDATE `f1.csv` SET n = n + 1;\nCREATE TABLE `f2.csv` (n);\nSELECT nosuch FROM `f1.csv`;\n"},
 		{Name: "exit", Tables: map[string]string{"f1.csv": rowsCSV(3, 0)},
 			SQL: "UPDATE `f1.csv` SET n = n + 1;\nCREATE TABLE `f2.csv` (n);\nEXIT 3;\n"},
+		// COMMIT that fails after the created table could have been written: f1 cannot be encoded in Shift_JIS
+		{Name: "commitfail", Tables: map[string]string{"f1.csv": rowsCSV(3, 0)},
+			SQL: "CREATE TABLE `f2.csv` (n);\nINSERT INTO `f2.csv` VALUES (0);\nALTER TABLE `f1.csv` SET ENCODING TO SJIS;\nINSERT INTO `f1.csv` VALUES ('\ud55c');\nCOMMIT;\n"},
+		{Name: "commitfailauto", Tables: map[string]string{"f1.csv": rowsCSV(3, 0)},
+			SQL: "ALTER TABLE `f1.csv` SET ENCODING TO SJIS;\nINSERT INTO `f1.csv` VALUES ('\ud55c');\nCREATE TABLE `f2.csv` (n);\nINSERT INTO `f2.csv` VALUES (0);\n"},
 		{Name: "holder", Tables: map[string]string{"f1.csv": rowsCSV(3, 0)}, Holder: true,
 			SQL: "SELECT COUNT(*) FROM `f1.csv`;\n"},
 		{Name: "holderupd", Tables: map[string]string{"f1.csv": rowsCSV(3, 0), "f2.csv": rowsCSV(3, 0)}, Holder: true,
@@ -66,6 +71,10 @@ func obsLinesForBin(sc binScenario, points []pointRec, snap map[string]string) [
 	in := map[string]interface{}{"a": "init", "exists": map[string]bool{"f1": sc.Tables["f1.csv"] != "", "f2": sc.Tables["f2.csv"] != ""}}
 	lines := []string{core.JSON(in)}
 	for _, p := range points {
+		if p.Point == "tx.commit.begin" || p.Point == "tx.commit.end" {
+			lines = append(lines, core.JSON(map[string]interface{}{"p": "p1", "a": "step", "pt": p.Point, "f": "-", "op": "commit", "out": "run", "ff": "", "fo": ""}))
+			continue
+		}
 		if !modelPoints[p.Point] {
 			continue
 		}
